@@ -46,11 +46,12 @@ def extract():
         checks = re.findall(r"if (.*?) \{\s*return Err\(\"(.*?)\"\.to_string\(\)\);", m.group(1), re.S)
         checks = [(re.sub(r"\s+", " ", c), msg) for c, msg in checks]
         record("c12.noise_checks", rel, t, m, checks)
-        want = [("epsilon <= 0.0", "epsilon must be > 0.0"), ("delta <= 0.0", "delta must be > 0.0"),
+        # after the fix F13 the seven range checks are written `!(x > 0.0)` (NaN is rejected); the model uses `!(A.lt A.zero x)`
+        want = [("!(epsilon > 0.0)", "epsilon must be > 0.0"), ("!(delta > 0.0)", "delta must be > 0.0"),
                 ("!(0.0..=MAX_PROBABILITY).contains(&success_prob)", "success_prob must be between 0 and 1"),
-                ("dimensions <= 0.0", "dimensions must be > 0.0"), ("quantization_scale <= 0.0", "quantization_scale must be > 0.0"),
-                ("ell_1_sensitivity <= 0.0", "ell_1_sensitivity must be > 0.0"), ("ell_2_sensitivity <= 0.0", "ell_2_sensitivity must be > 0.0"),
-                ("ell_infty_sensitivity <= 0.0", "ell_infty_sensitivity must be > 0.0")]
+                ("!(dimensions > 0.0)", "dimensions must be > 0.0"), ("!(quantization_scale > 0.0)", "quantization_scale must be > 0.0"),
+                ("!(ell_1_sensitivity > 0.0)", "ell_1_sensitivity must be > 0.0"), ("!(ell_2_sensitivity > 0.0)", "ell_2_sensitivity must be > 0.0"),
+                ("!(ell_infty_sensitivity > 0.0)", "ell_infty_sensitivity must be > 0.0")]
         if checks != want:
             diff = [c for c in checks if c not in want] or checks
             fail("c12.noise_checks", f"NoiseParams::new checks differ from the model: {diff[:2]}")
